@@ -39,10 +39,12 @@ DEEP_SHAPES = {
 def body(c):
     q = not c.thorough
     # ---- design + spec -> impl
-    cases = []
+    cases, tcases = [], []
     for cfg in (("MC_Human_quick.cfg", "MC_Human_disc.cfg") if q else ("MC_Human_thorough.cfg", "MC_Human_disc.cfg")):
         r = c.tlc_design("MC_Human", cfg, heap="24g", timeout=3400, workers=16)
         cases += tla_to_json_lines(r.prints, "CASE")
+        if cfg != "MC_Human_disc.cfg":
+            tcases += tla_to_json_lines(r.prints, "TYPE")
     cpath = os.path.join(c.work, "cases.ndjson")
     with open(cpath, "w") as f:
         for x in cases:
@@ -61,6 +63,28 @@ def body(c):
             c.report(v[0], "objects %s named %s: %s" % (case["dag"], case["user"], v[1]), {"dir": "spec->impl", "case": case, "got": g})
         else:
             c.traces += 1
+    # the type syntax: every enumerated type as the type of a witness in a real program
+    tpath0 = os.path.join(c.work, "types.ndjson")
+    with open(tpath0, "w") as f:
+        for x in tcases:
+            f.write(json.dumps(x) + "\n")
+    _, out = c.vh(["c17", "types", tpath0], timeout=3400)
+    tgot = [json.loads(l)["got"] for l in out.split("\n") if l.strip()]
+    if len(tgot) != len(tcases):
+        raise ToolError("type replay returned %d results for %d cases" % (len(tgot), len(tcases)))
+    for case, g in zip(tcases, tgot):
+        c.evaluations += 1
+        if g["class"].startswith("parse"):
+            c.report("c17:type-source-rejected", "main := comp witness E_T for T = %s did not parse: %s" % (case["ty"], g.get("msg", "")[:200]), {"case": case, "got": g})
+        elif not g.get("ty_ok"):
+            c.report("c17:type-forcing", "harness defect? the witness of main := comp witness E_T does not have type T = %s" % case["ty"], {"case": case, "got": g})
+        elif g.get("toks") != case["toks"]:
+            c.report("c17:type-render", "type %s is rendered as %s, Human.tla TyTok gives %s" % (case["ty"], g.get("toks"), case["toks"]), {"case": case, "got": g})
+        elif g["class"] != "ok":
+            c.report("c17:type-" + g["class"], "a program with a node of type %s renders to text that does not read back: %s" % (case["ty"], (g.get("msg") or "")[:200]), {"case": case, "got": g})
+        else:
+            c.traces += 1
+    cnt["types"] = len(tcases)
     c.extra["replayed"] = dict(cnt)
     c.sample({"dag": cases[len(cases) // 2]["dag"], "user_names": cases[len(cases) // 2]["user"], "names": cases[len(cases) // 2]["names"]})
     # ---- impl -> spec: recorded forests and parser calls
